@@ -66,38 +66,38 @@ End P1.
 
 Module P2.
   Import V2 X2.
-  Definition good (c : cfg) : Prop :=
-    let '(_, st, acc) := c in run _ cv true (init _) (rev acc) = Some st.
+  Definition good (ad : bool) (c : cfg) : Prop :=
+    let '(_, st, acc) := c in run _ cv ad (init _) (rev acc) = Some st.
 
-  Lemma run_snoc : forall ls (st st' st'' : X2.st) l,
-    run _ cv true st ls = Some st' -> step _ cv true st' l = Some st'' ->
-    run _ cv true st (ls ++ [l]) = Some st''.
+  Lemma run_snoc : forall ad ls (st st' st'' : X2.st) l,
+    run _ cv ad st ls = Some st' -> step _ cv ad st' l = Some st'' ->
+    run _ cv ad st (ls ++ [l]) = Some st''.
   Proof.
-    induction ls as [|x t IH]; intros st st' st'' l H S1; cbn in *.
+    intros ad. induction ls as [|x t IH]; intros st st' st'' l H S1; cbn in *.
     - inversion H; subst. rewrite S1. reflexivity.
-    - destruct (step _ cv true st x); [|discriminate]. eapply IH; eassumption.
+    - destruct (step _ cv ad st x); [|discriminate]. eapply IH; eassumption.
   Qed.
 
-  Lemma good_fire : forall c l, good c -> good (fire c l).
+  Lemma good_fire : forall ad c l, good ad c -> good ad (fire ad c l).
   Proof.
-    intros [[h st] acc] l G. unfold fire. destruct (step _ cv true st l) eqn:E; [|exact G].
+    intros ad [[h st] acc] l G. unfold fire. destruct (step _ cv ad st l) eqn:E; [|exact G].
     unfold good in *. cbn [rev]. eapply run_snoc; eassumption.
   Qed.
 
-  Lemma good_settle : forall p fuel c, good c -> good (settle p fuel c).
+  Lemma good_settle : forall ad p fuel c, good ad c -> good ad (settle ad p fuel c).
   Proof.
-    intros p. induction fuel as [|f IH]; intros [[h st] acc] G; cbn; [exact G|].
-    destruct (choose p h st) as [[l h']|]; [|exact G].
-    destruct (step _ cv true st l) eqn:E; [|exact G].
+    intros ad p. induction fuel as [|f IH]; intros [[h st] acc] G; cbn; [exact G|].
+    destruct (choose ad p h st) as [[l h']|]; [|exact G].
+    destruct (step _ cv ad st l) eqn:E; [|exact G].
     apply IH. unfold good in *. cbn [rev]. eapply run_snoc; eassumption.
   Qed.
 
-  Lemma good_set_h : forall c h, good c -> good (set_h c h).
-  Proof. intros [[h0 st] acc] h G. exact G. Qed.
+  Lemma good_set_h : forall ad c h, good ad c -> good ad (set_h c h).
+  Proof. intros ad [[h0 st] acc] h G. exact G. Qed.
 
-  Lemma good_do_op : forall p fuel c o, good c -> good (do_op p fuel c o).
+  Lemma good_do_op : forall ad p fuel c o, good ad c -> good ad (do_op ad p fuel c o).
   Proof.
-    intros p fuel c o G. destruct o; cbn [do_op].
+    intros ad p fuel c o G. destruct o; cbn [do_op].
     - apply good_fire; assumption.
     - apply good_set_h. apply good_fire. assumption.
     - apply good_settle; assumption.
@@ -110,11 +110,11 @@ Module P2.
     - apply good_fire. assumption.
   Qed.
 
-  Theorem exec_is_run : forall sc,
-    let '(_, st, acc) := exec sc in run _ cv true (init _) (rev acc) = Some st.
+  Theorem exec_is_run : forall ad sc,
+    let '(_, st, acc) := exec ad sc in run _ cv ad (init _) (rev acc) = Some st.
   Proof.
-    intros sc. unfold exec.
-    assert (G : good (h0, init cspec, [])) by reflexivity.
+    intros ad sc. unfold exec.
+    assert (G : good ad (h0, init cspec, [])) by reflexivity.
     revert G. generalize (h0, init cspec, @nil lab). generalize (nat_fuel (sc_ops sc)).
     induction (sc_ops sc) as [|o t IH]; intros fuel c G; cbn [fold_left].
     - exact G.
